@@ -20,6 +20,7 @@ pub(crate) mod h_owner;
 pub(crate) mod h_alloc;
 pub(crate) mod h_kernel2;
 pub(crate) mod h_rev;
+pub(crate) mod h_kernel3;
 
 /// Concrete playback tests of failed obligations (generated on demand by vf/run_kani.py;
 /// the file is empty unless a violation is being replayed).
